@@ -552,3 +552,198 @@ Qed.
 
 Lemma text_env43 sha256 : sha_ok sha256 -> text_env sha256 table43.
 Proof. intro H. split; [exact H|]. split; [exact table43_ok | exact domain_rows43]. Qed.
+
+(* ========================================================================================== *)
+(* Part 3 — the Michelson types' converters (types/domain.py), i.e. the observation point
+   T.from_micheline_value(T.from_value(x).to_micheline_value(mode="optimized")), text level.
+   (Definitions live here because they are only used by the theorems below and by the harness.) *)
+
+Section TypeLevel.
+  Variable sha256 : bytes -> bytes.
+  Variable t : list row.
+
+  (* AddressType.from_value / TXRAddress.from_value: "%default" is elided, then is_address *)
+  Definition normalise_default (s : bytes) : bytes :=
+    match after_pct s with
+    | Some e => if bytes_eqb e default_ep then before_pct s else s
+    | None => s
+    end.
+  Definition address_from_value (s : bytes) : result bytes :=
+    let v := normalise_default s in if is_address sha256 t v then Ok v else Reject.
+  Definition txr_from_value (s : bytes) : result bytes :=
+    let v := normalise_default s in if is_txr_address sha256 t v then Ok v else Reject.
+  Definition checked (valid : bytes -> bool) (s : bytes) : result bytes := if valid s then Ok s else Reject.
+
+  Definition observe (from_value : bytes -> result bytes) (to_opt : bytes -> result bytes)
+             (of_opt : bytes -> result bytes) (s : bytes) : result bytes :=
+    match from_value s with
+    | Ok v => match to_opt v with
+              | Ok d => match of_opt d with Ok s' => from_value s' | Reject => Reject end
+              | Reject => Reject
+              end
+    | Reject => Reject
+    end.
+
+  Definition observe_address := observe address_from_value (forge_contract_text sha256) (unforge_contract_text sha256 t).
+  Definition observe_txr := observe txr_from_value (forge_contract_text sha256) (unforge_contract_text sha256 t).
+  Definition observe_key_hash :=
+    observe (checked (is_pkh sha256 t)) (forge_address_text sha256 true) (unforge_address_text sha256 t).
+  Definition observe_key :=
+    observe (checked (is_public_key sha256 t)) (forge_public_key_text sha256) (unforge_public_key_text sha256 t).
+  Definition observe_signature :=
+    observe (checked (is_sig sha256 t)) (forge_base58_text sha256 t) (unforge_signature_text sha256 t).
+  Definition observe_chain_id :=
+    observe (checked (is_chain_id sha256 t)) (forge_base58_text sha256 t) (unforge_chain_id_text sha256 t).
+
+  Hypothesis Hsha : sha_ok sha256.
+  Hypothesis Hfull : table_full_ok t = true.
+  Hypothesis Hdom : domain_rows_ok t = true.
+
+  Lemma Htab_of_full : table_ok t = true.
+  Proof. unfold table_full_ok in Hfull. apply andb_true_iff in Hfull. tauto. Qed.
+
+  (* the string of a value passes the validator that lists its prefix *)
+  Lemma validate_text prefixes p tp s :
+    base58_encode sha256 t p tp = Ok s -> In tp prefixes -> validate sha256 t prefixes s = true.
+  Proof.
+    intros Hs Hin. apply (any_validate_iff sha256 t Hsha Hfull).
+    apply encode_ok_inv in Hs. destruct Hs as [r [Hr [Htp [Hpl Hs]]]].
+    exists r, p. split; [|rewrite Htp; exact Hin]. repeat split; auto.
+  Qed.
+
+  Lemma is_address_text a s :
+    address_type_admits (fst a) = true -> address_text sha256 t a = Ok s -> is_address sha256 t s = true /\
+    (forall e, is_address sha256 t (s ++ x25 :: e) = true).
+  Proof.
+    intros Hadm Hs. pose proof (address_text_chars sha256 t a s Hs) as Hch.
+    assert (H0 : (if is_kt sha256 t s then true else if is_pkh sha256 t s then true else is_sr sha256 t s) = true).
+    { destruct a as [k h]. unfold address_text in Hs. cbn [fst snd] in *.
+      destruct k; try discriminate.
+      1-4: assert (E : is_pkh sha256 t s = true)
+             by (eapply validate_text; [exact Hs | simpl; tauto]);
+           rewrite E; destruct (is_kt sha256 t s); reflexivity.
+      - assert (E : is_kt sha256 t s = true) by (eapply validate_text; [exact Hs | simpl; tauto]).
+        rewrite E. reflexivity.
+      - assert (E : is_sr sha256 t s = true) by (eapply validate_text; [exact Hs | simpl; tauto]).
+        rewrite E. destruct (is_kt sha256 t s), (is_pkh sha256 t s); reflexivity. }
+    split.
+    - unfold is_address. destruct (before_pct_none s Hch) as [-> _]. exact H0.
+    - intro e. unfold is_address. destruct (before_pct_no_pct s e Hch) as [-> _]. exact H0.
+  Qed.
+
+  Lemma contract_text_fixed c s :
+    contract_text sha256 t c = Ok s -> normalise_default s = s.
+  Proof.
+    destruct c as [a ep]. unfold contract_text. cbn [fst snd].
+    destruct (address_text sha256 t a) as [sa|] eqn:Ea; [|discriminate].
+    pose proof (address_text_chars sha256 t a sa Ea) as Hch.
+    unfold normalise_default.
+    destruct (bytes_eqb ep default_ep) eqn:Ed; intro H; injection H as <-.
+    - destruct (before_pct_none sa Hch) as [_ ->]. reflexivity.
+    - destruct (before_pct_no_pct sa ep Hch) as [_ ->]. rewrite Ed. reflexivity.
+  Qed.
+
+  Lemma address_from_value_text c s :
+    address_type_admits (fst (fst c)) = true -> contract_text sha256 t c = Ok s ->
+    address_from_value s = Ok s.
+  Proof.
+    intros Hadm Hs. unfold address_from_value. rewrite (contract_text_fixed c s Hs).
+    destruct c as [a ep]. unfold contract_text in Hs. cbn [fst snd] in *.
+    destruct (address_text sha256 t a) as [sa|] eqn:Ea; [|discriminate].
+    destruct (is_address_text a sa Hadm Ea) as [H1 H2].
+    destruct (bytes_eqb ep default_ep); injection Hs as <-; [rewrite H1 | rewrite H2]; reflexivity.
+  Qed.
+
+  (* AddressType / ContractType: tz1-tz4, KT1, sr1, any non-empty entrypoint name *)
+  Lemma observe_address_ok (c : contract) :
+    wf_address (fst c) -> address_type_admits (fst (fst c)) = true -> snd c <> [] ->
+    exists s, contract_text sha256 t c = Ok s /\ observe_address s = Ok s.
+  Proof.
+    intros Hw Hadm Hep.
+    destruct (text_contract sha256 t (conj Hsha (conj Htab_of_full Hdom)) c Hw Hep) as [s [Hs [Hf Hu]]].
+    exists s. split; [exact Hs|].
+    unfold observe_address, observe.
+    rewrite (address_from_value_text c s Hadm Hs), Hf, Hu. apply (address_from_value_text c s Hadm Hs).
+  Qed.
+
+  (* TXRAddress: txr1 *)
+  Lemma observe_txr_ok (c : contract) :
+    wf_address (fst c) -> fst (fst c) = Txr1 -> snd c <> [] ->
+    exists s, contract_text sha256 t c = Ok s /\ observe_txr s = Ok s.
+  Proof.
+    intros Hw Hk Hep.
+    destruct (text_contract sha256 t (conj Hsha (conj Htab_of_full Hdom)) c Hw Hep) as [s [Hs [Hf Hu]]].
+    exists s. split; [exact Hs|].
+    assert (Hfv : txr_from_value s = Ok s).
+    { unfold txr_from_value. rewrite (contract_text_fixed c s Hs).
+      destruct c as [[k h] ep]. cbn [fst snd] in *. subst k.
+      unfold contract_text in Hs. cbn [fst snd] in Hs.
+      destruct (address_text sha256 t (Txr1, h)) as [sa|] eqn:Ea; [|discriminate].
+      pose proof (address_text_chars sha256 t _ sa Ea) as Hch.
+      assert (E : is_l2_pkh sha256 t sa = true).
+      { unfold address_text in Ea. cbn [fst snd] in Ea. eapply validate_text; [exact Ea | simpl; tauto]. }
+      unfold is_txr_address.
+      destruct (bytes_eqb ep default_ep); injection Hs as <-.
+      - destruct (before_pct_none sa Hch) as [-> _]. rewrite E. reflexivity.
+      - destruct (before_pct_no_pct sa ep Hch) as [-> _]. rewrite E. reflexivity. }
+    unfold observe_txr, observe. rewrite Hfv, Hf, Hu. exact Hfv.
+  Qed.
+
+  Lemma observe_key_hash_ok a :
+    wf_address a -> is_implicit (fst a) = true ->
+    exists s, address_text sha256 t a = Ok s /\ observe_key_hash s = Ok s.
+  Proof.
+    intros Hw Hi.
+    destruct (text_address sha256 t (conj Hsha (conj Htab_of_full Hdom)) true a Hw (or_intror Hi)) as [s [Hs [Hf Hu]]].
+    exists s. split; [exact Hs|].
+    assert (Hv : is_pkh sha256 t s = true).
+    { destruct a as [k h]. unfold address_text in Hs. cbn [fst snd] in *.
+      destruct k; try discriminate; (eapply validate_text; [exact Hs | simpl; tauto]). }
+    unfold observe_key_hash, observe, checked. rewrite Hv, Hf, Hu, Hv. reflexivity.
+  Qed.
+
+  Lemma observe_key_ok k :
+    wf_public_key k -> exists s, public_key_text sha256 t k = Ok s /\ observe_key s = Ok s.
+  Proof.
+    intro Hw.
+    destruct (text_public_key sha256 t (conj Hsha (conj Htab_of_full Hdom)) k Hw) as [s [Hs [Hf Hu]]].
+    exists s. split; [exact Hs|].
+    assert (Hv : is_public_key sha256 t s = true).
+    { destruct k as [kk p]. unfold public_key_text in Hs. cbn [fst snd] in *.
+      destruct kk; (eapply validate_text; [exact Hs | simpl; tauto]). }
+    unfold observe_key, observe, checked. rewrite Hv, Hf, Hu, Hv. reflexivity.
+  Qed.
+
+  (* signatures: the observed value is a string with the same raw bytes *)
+  Lemma observe_signature_ok sg s :
+    wf_signature sg -> signature_text sha256 t sg = Ok s ->
+    exists s', observe_signature s = Ok s' /\ forge_base58_text sha256 t s' = Ok (snd sg).
+  Proof.
+    intros Hw Hs.
+    destruct (text_signature sha256 t (conj Hsha (conj Htab_of_full Hdom)) sg s Hw Hs) as [Hf [s' [Hu Hf']]].
+    exists s'. split; [|exact Hf'].
+    assert (Hv : is_sig sha256 t s = true).
+    { destruct sg as [k p]. unfold signature_text in Hs. cbn [fst snd] in *.
+      destruct k; (eapply validate_text; [exact Hs | simpl; tauto]). }
+    assert (Hv' : is_sig sha256 t s' = true).
+    { rewrite unforge_signature_text_ok in Hu by exact Hw. unfold signature_text in Hu. cbn [fst snd] in Hu.
+      destruct (fst sg); (eapply validate_text; [exact Hu | simpl; tauto]). }
+    unfold observe_signature, observe, checked. rewrite Hv, Hf, Hu, Hv'. reflexivity.
+  Qed.
+
+  Lemma observe_chain_id_ok c s :
+    chain_id_text sha256 t c = Ok s -> observe_chain_id s = Ok s.
+  Proof.
+    intro Hs.
+    destruct (text_chain_id sha256 t (conj Hsha (conj Htab_of_full Hdom)) c s Hs) as [Hf Hu].
+    assert (Hv : is_chain_id sha256 t s = true).
+    { unfold chain_id_text in Hs. eapply validate_text; [exact Hs | simpl; tauto]. }
+    unfold observe_chain_id, observe, checked. rewrite Hv, Hf, Hu, Hv. reflexivity.
+  Qed.
+End TypeLevel.
+
+Definition type_env (sha256 : bytes -> bytes) (t : list row) : Prop :=
+  sha_ok sha256 /\ table_full_ok t = true /\ domain_rows_ok t = true.
+
+Lemma type_env43 sha256 : sha_ok sha256 -> type_env sha256 table43.
+Proof. intro H. split; [exact H|]. split; [exact table43_full_ok | exact domain_rows43]. Qed.
